@@ -13,8 +13,8 @@
 """Module containing the base class for primitives"""
 
 from collada.common import DaeObject
-from collada.common import DaeBrokenRefError, DaeMalformedError, \
-    DaeUnsupportedError
+from collada.common import DaeBrokenRefError, DaeIncompleteError, \
+    DaeMalformedError, DaeUnsupportedError
 from collada.source import InputList
 
 
@@ -149,6 +149,9 @@ class Primitive(DaeObject):
 
     @staticmethod
     def _getInputs(collada, localscope, inputnodes):
+        for i in inputnodes:
+            if i.get('offset') is None or i.get('semantic') is None or i.get('source') is None:
+                raise DaeIncompleteError('Primitive input needs offset, semantic and source')
         try:
             inputs = [(int(i.get('offset')), i.get('semantic'),
                        i.get('source'), i.get('set'))
